@@ -712,7 +712,12 @@ void CheckNullPointer::getErrorMessages(ErrorLogger *errorLogger, const Settings
     CheckNullPointer c(nullptr, settings, errorLogger);
     c.nullPointerError(nullptr, "pointer", nullptr, false);
     c.pointerArithmeticError(nullptr, nullptr, false);
-    // TODO: nullPointerArithmeticOutOfMemory
+    ValueFlow::Value outOfMemory(0);
+    outOfMemory.unknownFunctionReturn = ValueFlow::Value::UnknownFunctionReturn::outOfMemory;
+    c.pointerArithmeticError(nullptr, &outOfMemory, false);
+    ValueFlow::Value outOfResources(0);
+    outOfResources.unknownFunctionReturn = ValueFlow::Value::UnknownFunctionReturn::outOfResources;
+    c.pointerArithmeticError(nullptr, &outOfResources, false);
     c.redundantConditionWarning(nullptr, nullptr, nullptr, false);
     // TODO: ctunullpointer
     // TODO: ctunullpointerOutOfMemory
